@@ -267,19 +267,45 @@ def logfmtAll (pairs : List (Bytes × Bytes)) (l : Labels) : Labels :=
 def logfmtFields (fields : List (Bytes × Bytes)) (pairs : List (Bytes × Bytes)) (l : Labels) : Labels :=
   pairs.foldl (fun acc kv => let name := Labels.get fields kv.1; if name.isEmpty then acc else acc.set name kv.2) l
 
+/-- `m[k] = v` on the `map[string]string` `logfmtFields` (an association list; only looked up, never ranged over) -/
+def fieldsPut : List (Bytes × Bytes) → Bytes → Bytes → List (Bytes × Bytes)
+  | [], k, v => [(k, v)]
+  | (k', v') :: rest, k, v => if k' = k then (k, v) :: rest else (k', v') :: fieldsPut rest k v
+
+/-- the loop of `ParserPlanner.Process` that fills `logfmtFields`: for every parameter, in order, whose typed
+    path is not empty and starts with a string, `logfmtFields[path[0]] = name` — a later parameter with the same
+    first segment overwrites the earlier one; parameters with an empty path or a leading index are skipped -/
+def paramFields (params : List Ahead) : List (Bytes × Bytes) :=
+  params.foldl (fun m a => match a.2 with
+    | .key k :: _ => fieldsPut m k a.1
+    | _ => m) []
+
 inductive ParserKind
   | json
-  | jsonParams (params : List Ahead)
+  | jsonParams (params : List Ahead)      -- `ParameterNames[i]`, `parameterTypedValues[i]`, in source order
   | logfmt
-  | logfmtParams (fields : List (Bytes × Bytes))   -- map[string]string: later parameters overwrite earlier ones
+  | logfmtParams (params : List Ahead)
 deriving Repr
+
+/-- the `switch p.Op` of `ParserPlanner.Process`: `json` with parameters is `jsonWithParams`, without `json`;
+    `logfmt` consults `logfmtFields`, which is non-nil exactly when there are parameters; any other parser
+    (`regexp`, `pattern`, `unpack`) is answered `NotSupported` by the in-process engine -/
+inductive ParserOp
+  | json | logfmt | other
+deriving DecidableEq, Repr
+
+def planParser (op : ParserOp) (params : List Ahead) : Option ParserKind :=
+  match op with
+  | .json => some (if params.isEmpty then .json else .jsonParams params)
+  | .logfmt => some (if params.isEmpty then .logfmt else .logfmtParams params)
+  | .other => none
 
 def parseLabels {V} (E : Env V) (k : ParserKind) (msg : Bytes) (l : Labels) : Labels :=
   match k with
   | .json => jsonAll (E.jsonDecode msg) l
   | .jsonParams ps => jsonParams ps (E.jsonDecode msg) l
   | .logfmt => logfmtAll (E.logfmtDecode msg) l
-  | .logfmtParams fs => logfmtFields fs (E.logfmtDecode msg) l
+  | .logfmtParams ps => logfmtFields (paramFields ps) (E.logfmtDecode msg) l
 
 /-- `ParserPlanner.Process.OnEntry` (after the fix: a parse error keeps the entry) -/
 def parserFn {V} (E : Env V) (k : ParserKind) (e : Entry V) : Entry V :=
